@@ -34,6 +34,7 @@ def goSig : String → Option GoSig
   | "fv" => some ⟨[.iface], some .iface⟩
   | "typed" => some ⟨[.int64], none⟩
   | "typed2" => some ⟨[.iface, .int64], none⟩
+  | "vtyped" => some ⟨[], some .int64⟩
   | "boom" => some ⟨[], none⟩
   | "zero" => some ⟨[], none⟩
   | "two" => some ⟨[], none⟩
@@ -75,6 +76,7 @@ def goRun (name : String) (args : List RV) : List Val × Except String RV :=
   | "fv" => (vs, .ok ⟨true, vs.headD .nil⟩)
   | "typed" => (vs, .ok ⟨false, vs.headD .nil⟩)
   | "typed2" => (vs, .ok ⟨false, (vs.drop 1).headD .nil⟩)
+  | "vtyped" => (vs, .ok ⟨false, .int (BitVec.ofNat 64 vs.length)⟩)
   | "boom" => ([], .error "boom")
   | "zero" => ([], .ok nilRV)
   | "two" => ([], .ok ⟨false, .list [.int 1, .str (strBytes "two")]⟩)
